@@ -441,6 +441,11 @@ def run(rep: Report, prog: Program, tier: str) -> None:
         else:
             rep.ok("C17-HELPERS", f"rtcsctptransport.{name} on boundary values", sample="agrees with arithmetic modulo 2^32")
 
+    if len(MODULES) > 3:
+        # origin-shift equivalence by evaluation (only in the full C17 run, not when another property borrows the rule set)
+        from .C17shift import run_shift
+        run_shift(rep, prog, tier)
+
 
 def _is_const(prog: Program, fi: FuncInfo, e: ast.AST) -> bool:
     try:
